@@ -10,7 +10,16 @@
       ended before any rule of stage j > i starts, each scheduled rule starts and ends exactly
       once, nothing else runs.
 -/
-import GV.Orch.AllConform
+import GV.Orch.Conf.ExecuteMixModel
+import GV.Orch.Conf.ExecuteSelectedRulesMixModel
+import GV.Orch.Conf.ExecuteInverseMixModel
+import GV.Orch.Conf.ExecuteSelectedRulesInverseMixModel
+import GV.Orch.Conf.ExecuteNSortMConcurrent
+import GV.Orch.Conf.ExecuteNConcurrentMSort
+import GV.Orch.Conf.ExecuteNConcurrentMConcurrent
+import GV.Orch.Conf.ExecuteSelectedNSortMConcurrent
+import GV.Orch.Conf.ExecuteSelectedNConcurrentMSort
+import GV.Orch.Conf.ExecuteSelectedNConcurrentMConcurrent
 import GV.Orch.Sched
 namespace GV.Props.C05
 open GV.Orch GV.Generated.Orch
